@@ -33,7 +33,7 @@ Ltac gored :=
   cbn [Nat.add i_eval i_assign i_exec i_loop i_call eval_step assign_step exec_step call_step
        loop_step evals fields execs assigns select matches range type_of find_fn Pos.eqb andb orb negb
        bind_all set lookup rbind zero_of arith spread length Nat.eqb ret_val as_slice re_slice fold_left
-       is_place fst snd fn_recv fn_params fn_body it_val arr_val lst_val lcls_val stk_val].
+       is_place fst snd app Bool.eqb fn_recv fn_params fn_body it_val arr_val lst_val lcls_val stk_val].
 
 (* look a method (or a struct declaration) up in the generated program, by computation *)
 Ltac gofind :=
@@ -52,14 +52,16 @@ Ltac goloop := gored; rewrite loop_S; gorun.
 (* enter every call *)
 Ltac gorun_in := gorun; repeat (rewrite call_S; gorun).
 
+(* case analysis on one comparison of the goal whose operands are free of conditionals (innermost first) *)
+Ltac noif t := lazymatch t with context[if _ then _ else _] => fail | _ => idtac end.
 Ltac zsplit :=
   match goal with
-  | |- context[Z.ltb ?a ?b] => destruct (Z.ltb_spec a b)
-  | |- context[Z.leb ?a ?b] => destruct (Z.leb_spec a b)
-  | |- context[Z.eqb ?a ?b] => destruct (Z.eqb_spec a b)
-  | |- context[Nat.ltb ?a ?b] => destruct (Nat.ltb_spec a b)
-  | |- context[Nat.leb ?a ?b] => destruct (Nat.leb_spec a b)
-  | |- context[Nat.eqb ?a ?b] => destruct (Nat.eqb_spec a b)
+  | |- context[Z.ltb ?a ?b] => noif a; noif b; destruct (Z.ltb_spec a b)
+  | |- context[Z.leb ?a ?b] => noif a; noif b; destruct (Z.leb_spec a b)
+  | |- context[Z.eqb ?a ?b] => noif a; noif b; destruct (Z.eqb_spec a b)
+  | |- context[Nat.ltb ?a ?b] => noif a; noif b; destruct (Nat.ltb_spec a b)
+  | |- context[Nat.leb ?a ?b] => noif a; noif b; destruct (Nat.leb_spec a b)
+  | |- context[Nat.eqb ?a ?b] => noif a; noif b; destruct (Nat.eqb_spec a b)
   end.
 
 (* run; split on the comparisons met; drop impossible branches *)
@@ -71,7 +73,7 @@ Ltac goeq := repeat (f_equal; try reflexivity); try lia.
 Ltac fuel F K :=
   let f := fresh "f" in
   let E := fresh in
-  assert (E : F = K + (F - K)) by lia; rewrite E; clear E; generalize (F - K); intro f.
+  remember (F - K) as f eqn:E; assert (F = K + f) by lia; clear E; subst F.
 
 Section Facts.
 Variable A : Type.
